@@ -18,7 +18,7 @@ SPECS = {
         rule="rapid state machine over signed transactions through DeliverTx/Commit/Query: AOL messages by listed, delisted and foreign accounts on prefix-colliding topic names, crash, restart and genesis export/import; a case is non-trivial when a record was acknowledged and afterwards its writer was removed, or a crash/restart/export-import happened, or a second topic exists; distinct = distinct sequence of (step kind, message types, outcome class)",
         assumptions=MACHINE_ASSUME),
     "C02": dict(
-        units=[machine("TestC02", 640, 12000, steps=32)],
+        units=[machine("TestC02", 1120, 16000, steps=32)],
         floor=0.35,
         rule="AOL machine with independently chosen signer sets, sign modes, fee payers and authz grant/revoke/exec; oracle = transition validity of the aol store diff of every DeliverTx; non-trivial = >=1 refused AOL attempt and >=1 accepted writer-list change or append; distinct as in C01",
         assumptions=MACHINE_ASSUME),
@@ -31,7 +31,7 @@ SPECS = {
     "C04": dict(units=[machine("TestC04", 640, 12000, steps=30)], floor=0.25, rule=None, assumptions=MACHINE_ASSUME),
     "C05": dict(units=[machine("TestC05", 560, 9000, steps=32)], floor=0.25, rule=None, assumptions=MACHINE_ASSUME),
     "C11": dict(units=[machine("TestC11", 640, 9000, steps=24), dict(test="TestKnownC11", kind="plain", quick=1, thorough=1)], floor=0.45, rule=None, assumptions=MACHINE_ASSUME),
-    "C06": dict(units=[machine("TestC06", 640, 12000, steps=34)], floor=0.22, rule=None, assumptions=MACHINE_ASSUME),
+    "C06": dict(units=[machine("TestC06", 960, 14000, steps=34)], floor=0.22, rule=None, assumptions=MACHINE_ASSUME),
     "C12": dict(units=[machine("TestC12", 560, 10000, steps=34)], floor=0.18, rule=None, assumptions=MACHINE_ASSUME),
     "C08": dict(units=[machine("TestC08", 400, 6000, steps=34), dict(test="TestKnownC08", kind="plain", quick=1, thorough=1)], floor=0.28, rule=None, assumptions=MACHINE_ASSUME),
     "C07": dict(units=[machine("TestC07", 640, 10000, steps=30)], floor=0.35, rule=None, assumptions=MACHINE_ASSUME),
